@@ -121,6 +121,14 @@ class Run:
         return None
 
     def finish(self, level: str, explanation: str, exhaustive: bool = False) -> int:
+        from vf import crosscheck
+
+        if crosscheck.ENABLED:
+            self.engines["cvc5"] = f"cvc5 1.0.3 binary on SMT-LIB2 exports of the z3 queries: {crosscheck.STATS}"
+            self.counters["cvc5_queries"] = crosscheck.STATS["queries"]
+            self.counters["cvc5_agree"] = crosscheck.STATS["agree"]
+            for dis in crosscheck.DISAGREEMENTS:
+                self.error(f"solver disagreement: {dis}")
         findings = load_known_findings()
         new_violations, known_hits = [], []
         for v in self.violations:
